@@ -305,7 +305,7 @@ def _w_simple(kernel, cls):
       if cls == 'factors':
         return bool(scf.FactorWithGuess(p * q, p - 2))
       p, q = np_(2**200 + 12345), np_(2**201 + 99999)
-      return scf.FactorWithGuess(p * q, 2**150 + 7) is None
+      return scf.FactorWithGuess(p * q, 3) is None
     return False
   return f
 
